@@ -1030,7 +1030,9 @@ func (m *Monitors) onStore(n *Node, nm *nodeMon, e *spi.Event) {
 		}
 	}
 	// what the node itself recorded (Storage SPI): basis of "holds a prepared certificate"
-	if e.Ok && (e.Kind == spi.EvStorePP || e.Kind == spi.EvStoreP) {
+	// (a PREPARE the log already holds is evaluated too: the library re-evaluates "prepared" at every PREPARE that arrives, also a
+	// repeated one — that is how a leader becomes prepared on PREPAREs that were in its log before it stored its own proposal)
+	if (e.Ok || e.Kind == spi.EvStoreP) && (e.Kind == spi.EvStorePP || e.Kind == spi.EvStoreP) {
 		if e.Kind == spi.EvStorePP {
 			nm.storedPP[hv{e.H, e.V}] = e.Hash
 			// (a proposal stored without its block — possible when the consumer's validator does not object to a missing block —
@@ -1320,7 +1322,9 @@ func (m *Monitors) judgeOwnViewChange(n *Node, nm *nodeMon, msg *ref.Msg) {
 		m.violate("C09", "view-change-lacks-proof", "node %s prepared in view %d but its VIEW_CHANGE h=%d v=%d carries no proof", n.Id, best, msg.H, msg.V)
 		return
 	}
-	if p.PPRef == nil || p.PPRef.V != best || string(p.PPRef.Hash) != bestHash {
+	// (what the monitor saw the node hold is a lower bound of what it holds: a proof of a later view, still below the vote's, is the
+	// node's own newer certificate and is judged by the validity rule below)
+	if p.PPRef == nil || p.PPRef.V < best || (p.PPRef.V == best && string(p.PPRef.Hash) != bestHash) {
 		m.violate("C09", "view-change-proof-not-highest-prepared", "node %s VIEW_CHANGE h=%d v=%d carries a proof that is not for its highest prepared view %d", n.Id, msg.H, msg.V, best)
 	}
 	if !ref.ProofValid(w.Keys, c, uint64(spi.InstanceId), msg.H, msg.V, p) {
